@@ -189,7 +189,7 @@ Section Fresh.
     destruct m as [mo mm mj]. cbn. rewrite ?unsched_obj_init. cbn. rewrite ?concat_repeat_nil. cbn.
     split; [apply nodup012|split; [left; reflexivity|]].
     unfold fresh_comp, zero_obj, set_rem, set_feats, blank, when. cbn.
-    rewrite all_deques_concat.
+    rewrite ?unscheduled_init.
     destruct mo, mm, mj; cbn; rewrite <- ?remj_vec_init; reflexivity.
   Qed.
 End Fresh.
